@@ -69,7 +69,10 @@ class ValidationError(Exception):
     def _errors(self) -> Iterator[Tuple[List[ErrorKey], ErrorMsg]]:
         for msg in self.messages:
             yield [], msg
-        for child_key in sorted(self.children):
+        # integer keys (indices) first, in numeric order, then the others; mixed keys don't compare
+        for child_key in sorted(
+            self.children, key=lambda k: (not isinstance(k, int), k if isinstance(k, int) else str(k))
+        ):
             for path, error in self.children[child_key]._errors():
                 yield [child_key, *path], error
 
